@@ -427,6 +427,11 @@ impl Failures {
     }
     /// report the first failure whose class is not a known finding (so the search continues behind known ones)
     fn finish(self, c: &mut Case) {
+        if let Some((_, msg)) = self.list.iter().find(|(s, _)| s == "harness") {
+            // a panic in the harness itself is not a verdict about the code under test
+            c.infra(msg.clone());
+            return;
+        }
         let pick = self
             .list
             .iter()
